@@ -167,7 +167,10 @@ def structural(spec, fview, n, names, vals, p, sig, case, desc, stats):
         if any(q.kind == VP for q in params.values()):
             stats.fail('C19/struct/varargs-kept', case, '%s -> %s keeps *args after a positional-or-keyword parameter was bound by keyword' % (desc, sig))
     fnames = set(x for x, k, d in fview if k in (POK, KWO))
+    stars = set(x for x, k, d in fview if k in (VP, VK))
     for x in names:
+        if x in stars:
+            continue        # spelled like a star parameter: cannot be shown as a parameter of its own, **kwargs takes it
         if x not in params:
             stats.fail('C19/struct/bound-keyword-missing', case, '%s -> %s lacks the bound keyword %r' % (desc, sig, x))
             continue
@@ -188,6 +191,9 @@ def work_spec(spec, stats):
     fview = universe.spec_view(spec)
     P = cpbind.poscap(fview)
     cand = sorted(cpbind.kwpassable(fview)) + ['q']
+    if any(k == VK for x, k, d in fview):
+        # a keyword spelled like a star parameter is absorbed by **kwargs like any other
+        cand += [x for x, k, d in fview if k in (VP, VK)]
     i = 0
     for n in range(P + 2):
         for r in range(0, 4):
